@@ -172,6 +172,7 @@ def run(ctx: common.Run):
     check_noisy_runs(ctx, cirq, max(12, n // 3))
     check_virtual_moments(ctx, cirq, max(15, n // 3))
     check_insertion_model(ctx, cirq, 60 if ctx.tier == 'quick' else 1500)
+    check_noise_properties_measurements(ctx, cirq, 20 if ctx.tier == 'quick' else 300)
     check_thermal(ctx, cirq, max(10, n // 3))
 
 
@@ -496,6 +497,46 @@ def check_insertion_model(ctx, cirq, n):
             ctx.report_witness('noise:insertion-rule', 'InsertionNoiseModel does not insert the operation of the most specific (else first) matching key',
                                {'lines': [{'keys': [repr(cirq.OpIdentifier(*k)) for k in keys], 'moment': repr(moment)}], 'impl_out': [sorted(map(repr, got))], 'spec_out': [sorted(map(repr, want))],
                                 'theorem_or_correspondence': 'InsertionNoiseModel (documented matching rule)'})
+
+
+def check_noise_properties_measurements(ctx, cirq, n):
+    """NoiseModelFromNoiseProperties splits multi-qubit measurements before applying its noise models and recombines them afterwards: the
+    measurements of the noisy circuit are the measurements of the circuit, in order - same qubits, keys, invert masks - also when a key is
+    measured more than once; everything else the models add is noise on top of the original operations"""
+    from cirq.devices.insertion_noise_model import InsertionNoiseModel
+    from cirq.devices.noise_properties import NoiseModelFromNoiseProperties, NoiseProperties
+
+    rng = ctx.substream('noise-properties')
+    qs = cirq.LineQubit.range(3)
+
+    class Props(NoiseProperties):
+        def build_noise_models(self):
+            return [InsertionNoiseModel(ops_added={cirq.OpIdentifier(cirq.XPowGate): cirq.bit_flip(0.1).on(qs[0]), cirq.OpIdentifier(cirq.MeasurementGate): cirq.bit_flip(0.05).on(qs[1])})]
+
+    model = NoiseModelFromNoiseProperties(Props())
+    for it in range(n):
+        moments = []
+        for _ in range(rng.randint(2, 5)):
+            if rng.random() < 0.5:
+                moments.append(cirq.Moment(cirq.X(q) for q in qs if rng.random() < 0.6))
+            else:
+                t = rng.sample(list(qs), rng.choice([1, 2, 3]))
+                moments.append(cirq.Moment(cirq.measure(*t, key=rng.choice(['m', 'm', 'k']), invert_mask=tuple(rng.random() < 0.4 for _ in t))))
+        if it == 0:
+            moments = [cirq.Moment(cirq.X(qs[0])), cirq.Moment(cirq.measure(qs[0], key='m', invert_mask=(True,))), cirq.Moment(cirq.measure(qs[1], key='m'))]
+        circuit = cirq.Circuit(moments)
+        try:
+            noisy = circuit.with_noise(model)
+        except ValueError as e:
+            ctx.count('noise_properties_rejected', str(e)[:40])
+            continue
+        ctx.count('check', 'noise-properties:measurements')
+        ctx.case(['noise-properties', repr(circuit)], sum(1 for o in circuit.all_operations() if cirq.is_measurement(o)) >= 2)
+        want = [o for m in circuit for o in m if cirq.is_measurement(o)]
+        got = [o.untagged for m in noisy for o in m if cirq.is_measurement(o)]
+        if got != want:
+            ctx.report_witness('noise:properties-measurements', 'the measurements of the noisy circuit are not the measurements of the circuit (qubits, key, invert mask, order)',
+                               {'lines': [{'circuit': repr(circuit)}], 'impl_out': [repr(got)[:1200]], 'spec_out': [repr(want)[:1200]], 'theorem_or_correspondence': 'noise model leaves measurements alone'})
 
 
 def check_noisy_runs(ctx, cirq, n):
